@@ -41,6 +41,10 @@ def gen_queue(rng, tier, seed):
     nconn = rng.choice([1, 2, 2, 3, 4])
     B = rng.choice([1, 1, 2, 2, 3, 4, 5, 8])
     via_host = rng.random() < 0.4
+    if via_host and rng.random() < 0.4:
+        # the Host learns the buffer geometry itself (Host.reset against a controller without dedicated LE buffers) and
+        # carries LE and BR/EDR connections at once: one pool of B buffers for both
+        via_host = 'reset'
     honest = rng.random() < 0.45  # fault-free configuration (no over-reports / unknown handles)
     nops = rng.randint(3, 40)
     ops = []
@@ -130,9 +134,27 @@ def run_queue(case):
                 h.le_acl_packet_queue = q
                 return h, q
 
-            host, q = sim.must(mk(), 'host')
+            async def mk_reset():
+                from bumble.controller import Controller
+                from bumble.transport.common import AsyncPipeSink
+                c = Controller('C', link=None)
+                c.acl_data_packet_length, c.total_num_acl_data_packets = 27, B
+                c.le_acl_data_packet_length, c.total_num_le_acl_data_packets = 0, 0
+                h = Host(c, AsyncPipeSink(c))
+                await h.reset()
+                h.set_packet_sink(Sink())
+                return h, h.acl_packet_queue
+
+            host, q = sim.must(mk_reset() if via_host == 'reset' else mk(), 'host')
+            if via_host == 'reset':
+                sim.probe('host_learnt_shared_buffer_geometry_by_reset')
 
             def connect(hd):
+                if via_host == 'reset' and handles.index(hd) % 2 == 1:
+                    host.on_packet(bytes(hci.HCI_Connection_Complete_Event(
+                        status=0, connection_handle=hd, bd_addr=hci.Address('00:11:22:33:44:66', hci.Address.PUBLIC_DEVICE_ADDRESS),
+                        link_type=hci.HCI_Connection_Complete_Event.LinkType.ACL, encryption_enabled=0)))
+                    return
                 host.on_packet(bytes(hci.HCI_LE_Connection_Complete_Event(
                     status=0, connection_handle=hd, role=0, peer_address_type=0,
                     peer_address=hci.Address('00:11:22:33:44:55'), connection_interval=10,
